@@ -595,17 +595,13 @@ std::vector<double> Weighted_Average(std::vector<DataPoint>& data)
 		sum += data[i].weight * data[i].value;
 		wsum += data[i].weight;
 	}
-	double Average	= sum / wsum;
-	double wAverage = wsum / N;
+	double Average = sum / wsum;
 	// 2. Standard error (Cochran)
-	double sum1 = 0.0, sum2 = 0.0, sum3 = 0.0;
+	// (The three sums of the textbook form, sum1 - 2 Average sum2 + Average^2 sum3 with sum1 = sum (w x - Average wAverage)^2 etc., combine to the sum of squares below. Evaluated separately they cancel for data with a small spread, down to a negative value and a standard error of nan.)
+	double sum_squares = 0.0;
 	for(unsigned int i = 0; i < data.size(); i++)
-	{
-		sum1 += pow((data[i].weight * data[i].value - Average * wAverage), 2.0);
-		sum2 += (data[i].weight - wAverage) * (data[i].weight * data[i].value - Average * wAverage);
-		sum3 += pow(data[i].weight - wAverage, 2.0);
-	}
-	double SE = N / (N - 1.0) / wsum / wsum * (sum1 - 2.0 * Average * sum2 + pow(Average, 2.0) * sum3);
+		sum_squares += pow(data[i].weight * (data[i].value - Average), 2.0);
+	double SE = N / (N - 1.0) / wsum / wsum * sum_squares;
 	// 3. Return result
 	return std::vector<double> {Average, sqrt(SE)};
 }
